@@ -153,6 +153,16 @@ fn check_color_attr(t: &[P4; 3], r: &mut Report) {
         let l = [b[k].attrib.0.x(), b[k].attrib.0.y(), b[k].attrib.0.z()];
         for c in 0..3 { let want = 3.0 * l[c] as f64 - 1.0; if !((a[k].attrib.0 .0[c] as f64 - want).abs() <= 1e-5) { r.violation(format!("attr-color|{t:?}"), format!("output {oi} vertex {k}: colour channel {c} is {} but the linear attribute field has {want} there (barycentrics {l:?})", a[k].attrib.0 .0[c]), case()); return; } }
     }}
+    // ... and with an Angle attribute whose vertex values are more than half a turn apart (0.2, 6.1, 3.0 rad)
+    let angs = [0.2f32, 6.1, 3.0];
+    let input: Tri<ClipVert<(re::math::Angle, f32)>> = Tri(std::array::from_fn(|k| ClipVert::new(vertex(ClipVec::from(t[k]), (re::math::rads(angs[k]), SCAL[k])))));
+    let outa = match caught(|| { let mut out = vec![]; view_frustum::clip(std::slice::from_ref(&input), &mut out); out }) { Ok(o) => o, Err(p) => { r.violation(format!("clip-panic|angle|{t:?}"), p, case()); return; } };
+    if outa.len() != base.len() { r.violation(format!("attr-type-dependence|count|{t:?}"), format!("{} outputs with an angle attribute, {} with a vector attribute", outa.len(), base.len()), case()); return; }
+    for (oi, (Tri(a), Tri(b))) in outa.iter().zip(&base).enumerate() { for k in 0..3 {
+        let l = [b[k].attrib.0.x(), b[k].attrib.0.y(), b[k].attrib.0.z()];
+        let want: f64 = (0..3).map(|j| l[j] as f64 * angs[j] as f64).sum();
+        if !((a[k].attrib.0.to_rads() as f64 - want).abs() <= 2e-5) { r.violation(format!("attr-angle|{t:?}"), format!("output {oi} vertex {k}: angle attribute is {} rad but the linear attribute field has {want} there (barycentrics {l:?})", a[k].attrib.0.to_rads()), case()); return; }
+    }}
     if out.len() > 0 && trivial_class(t) == "clipped" { r.nontrivial(); }
 }
 
@@ -235,6 +245,16 @@ fn main() {
     rep.merge(par_range(&cfg, np * np, |i, r| check_batch(&[pool[(i % np) as usize], pool[(i / np) as usize]], r)));
     let trip = if quick { np * np * 8 } else { np * np * np };
     rep.merge(par_range(&cfg, trip, |i, r| check_batch(&[pool[(i % np) as usize], pool[(i / np % np) as usize], pool[((i / np / np) * if quick { 7 } else { 1 } % np) as usize]], r)));
+    // every ordered triple of pool members drawn from two representatives of each trivial class (visible / needs clipping /
+    // hidden) - in particular visible, hidden, visible with nothing needing the clipper in between
+    {
+        let mut reps: Vec<[P4; 3]> = vec![];
+        for cls in ["visible", "clipped", "hidden"] { reps.extend(pool.iter().filter(|t| trivial_class(t) == cls).take(3).cloned()); }
+        let nr = reps.len() as u64;
+        rep.set("class_representatives", nr);
+        rep.merge(par_range(&cfg, nr * nr * nr, |i, r| check_batch(&[reps[(i % nr) as usize], reps[(i / nr % nr) as usize], reps[(i / nr / nr) as usize]], r)));
+        rep.merge(par_range(&cfg, nr * nr * nr * nr, |i, r| check_batch(&[reps[(i % nr) as usize], reps[(i / nr % nr) as usize], reps[(i / nr / nr % nr) as usize], reps[(i / nr / nr / nr) as usize]], r)));
+    }
     // scale sentinel: hundreds of triangles in one call (every pool member several times, interleaved orders)
     for stride in [1usize, 7, 31] {
         let big: Vec<[P4; 3]> = (0..600).map(|k| pool[(k * stride + k / 96) % pool.len()]).collect();
